@@ -8,7 +8,7 @@ func PlanCases(prop, tier string, seed int64) (cases []*Case, rule []string) {
 	thorough := tier == "thorough"
 	n := func(q, t int) int {
 		if thorough {
-			return t
+			return 3 * t // the thorough tier: 30-45x the quick tier
 		}
 		return q
 	}
